@@ -10,7 +10,8 @@ LEAN_TARGETS = ["FlatModel.Generated.Covered", "FlatModel.Generated.CoveredUnive
 PROFILES = {"quick": ["checked"], "thorough": ["checked", "wrapping"], "search": ["checked"]}
 RULE = ("pairs (history, continuation): the continuation runs on the cleared region and on a twin Default::default(); returned "
         "indices and reads are compared step by step (impl vs impl, then vs the model); pre-histories leave dirt (collapsed last "
-        "item equal to the first post-clear item, wide rows, strides broken); repeated clear/refill cycles; non-trivial when the "
+        "item equal to the first post-clear item, wide rows, strides broken); repeated clear/refill cycles; coded compositions are "
+        "cleared in their *encoded* state (after merge_regions) and continued with values outside their dictionary; non-trivial when the "
         "pre-clear history pushed >= 2 items")
 
 
@@ -44,6 +45,32 @@ def one(cat, rng, stack, cycles):
     return b.s
 
 
+def cleared_coded(cat, rng, stack):
+    """coded compositions: a region created by merge_regions carries a dictionary / a code; clear() must drop it — the
+    cleared region answers every continuation (also values the dictionary could not represent) like a default one"""
+    from props.hist import encoded_region
+    b = RB(ID, cat, rng, stack)
+    b.idx_cmp = "status"
+    pool = encoded_region(b, rng, "a")
+    for _ in range(1 + rng.below(6)):
+        v = rng.pick(pool)
+        b.push("a", v, b.form_for(v))
+    b.s.nontrivial = True
+    for c in range(1 + rng.below(2)):
+        b.clear("a")
+        b.new("t")
+        for _ in range(2 + rng.below(8)):
+            v = b.value() if rng.below(3) else rng.pick(pool)
+            f = b.form_for(v)
+            ka, na = b.push("a", v, f)
+            kt, nt = b.push("t", v, f)
+            b.s.lines[na].exp = ("same", nt)
+            b.s.lines[na].sig = "index-after-clear-differs@" + b.entry
+            b.read("a", ka, sig="read-after-clear@" + b.entry)
+        b.readall("a", sig="read-after-clear@" + b.entry)
+    return b.s
+
+
 def generate(seed, tier):
     rng = Rng(seed * 17 + 3)
     per = {"quick": 6, "thorough": 80, "search": 30}[tier]
@@ -51,7 +78,12 @@ def generate(seed, tier):
     for cat in entries():
         for i in range(per):
             out.append(one(cat, rng.fork(), None, 1 + rng.below(3)))
+        if cat["caps"]["coded"]:
+            for i in range(per):
+                out.append(cleared_coded(cat, rng.fork(), None))
         for st in cat["stacks"]:
             for i in range(max(1, per // 3)):
                 out.append(one(cat, rng.fork(), st, 1 + rng.below(3)))
+            if cat["caps"]["coded"]:
+                out.append(cleared_coded(cat, rng.fork(), st))
     return out
